@@ -41,6 +41,23 @@ class BuildError(Exception):
     pass
 
 
+_py_rmtree = shutil.rmtree
+
+
+def safe_rmtree(path, ignore_errors=True, onerror=None, **kw):
+    """shutil.rmtree recurses in Python and dies on trees deeper than the recursion limit (a copy through a link to
+    an ancestor nests until PATH_MAX): let rm(1) do it, fall back to the library"""
+    try:
+        subprocess.run(["rm", "-rf", "--", os.fsdecode(path)], capture_output=True, timeout=600)
+    except Exception:
+        pass
+    if os.path.lexists(path):
+        _py_rmtree(path, ignore_errors=True)
+
+
+shutil.rmtree = safe_rmtree
+
+
 def log(*a):
     print(*a, file=sys.stderr, flush=True)
 
